@@ -41,7 +41,7 @@ TRUSTED = [
     "(derived, or copied in payment lines) are not reference positions of this check",
     "an extension key `defined by the regime, an addon or a catalogue` is read as the library's global registry: "
     "any regime, any addon (active or not), any catalogue; accepted keys foreign to the document's regime and "
-    "addons are counted (informational stream foreign-extension-key)",
+    "addons are counted (coverage.informational)",
 ]
 
 F_REGIME = "C18-regime-not-checked"
@@ -322,7 +322,7 @@ def candidates(c, pools, kind, old, detail, quick):
     bound = {"regime": None, "addon": None, "tag": 5, "category": 5, "rate": 5, "combo-country": 3, "ext-key": 4,
              "ext-value": 3, "currency": 3, "country": 3}[kind]
     if not quick:
-        bound = None if bound is None else bound * 25
+        bound = None            # thorough: EVERY other defined value of the kind
     if bound is not None and len(pool) > bound:
         keep = [x for x in one_sided if x != old]
         pool = keep + c.rng.sample([x for x in pool if x not in keep], max(0, bound - len(keep)))
@@ -354,6 +354,31 @@ def finding_for(schema, ref):
 
 
 # ----------------------------------------------------------------------------------------------
+
+def pattern_probes(c, pattern):
+    """values around a declared pattern: digit strings of every length up to 12, with the separators the patterns
+    mention put in at every place, with a letter, a space, a newline, and random printable strings"""
+    out = {"", "0", "A", " ", "zz-unknown"}
+    seps = ["", ".", "-", "/", " ", "\t", "a", "\n", "\u00e9"]
+    for n in range(1, 13):
+        d = "".join(str((i * 7 + 3) % 10) for i in range(n))
+        out.add(d)
+        for i in range(n + 1):
+            for sp in seps[1:]:
+                out.add(d[:i] + sp + d[i:])
+        if n >= 4:
+            for _ in range(6):
+                parts, k = [], 0
+                while k < n:
+                    st = c.rng.choice([1, 2, 2, 3])
+                    parts.append(d[k:k + st])
+                    k += st
+                out.add("".join(p + c.rng.choice(seps[:5]) for p in parts))
+                out.add("".join(p + c.rng.choice(seps[:5]) for p in parts)[:-1])
+    for _ in range(40):
+        out.add("".join(c.rng.choice("0123456789.-/ aZ") for _ in range(c.rng.randint(1, 11))))
+    return sorted(out)
+
 
 def proof_error(pr):
     log = pr.get("make_log") or pr.get("log", "")
@@ -406,6 +431,12 @@ def model_run(views, op="check"):
     return res
 
 
+def note(c, what):
+    """informational tallies (not evaluations: every document is counted once, in its kind/class/verdict stream)"""
+    d = c.cov.setdefault("informational", {})
+    d[what] = d.get(what, 0) + 1
+
+
 def judge(c, pub, cases, stats):
     """cases: [dict(example, mutation, document)] ; runs Go, model, oracle; reports."""
     go = go_run([x["document"] for x in cases])
@@ -413,7 +444,7 @@ def judge(c, pub, cases, stats):
     views = [go[i][2] for i in idx]
     m_code = dict(zip(idx, model_run(views, "check")))
     m_pub = dict(zip(idx, model_run(views, "check-published")))
-    reported = {}
+    reported = c.__dict__.setdefault("_c18_reported", {})       # caps on repeated reports of one shape, per run
     for i, (x, g) in enumerate(zip(cases, go)):
         verdict = g[0][0].decode()
         mut = x["mutation"]
@@ -431,7 +462,7 @@ def judge(c, pub, cases, stats):
             if not cls.startswith("undefined"):
                 # a crash on a DEFINED reference is not this property's subject (C14: no input crashes the library);
                 # it is listed in the evidence, not judged here
-                c.count("panic-on-defined-reference(informational)", 1)
+                note(c, "panic on a defined replacement value (C14)")
                 pl = c.cov.setdefault("panics_on_defined_references", [])
                 if len(pl) < 10 and frame not in [p_["frame"] for p_ in pl]:
                     pl.append({"frame": frame, "example": x["example"], "mutation": mut})
@@ -459,7 +490,7 @@ def judge(c, pub, cases, stats):
                          {"correspondence": "oracle:C18:model-vs-python", "case": x, "view": view}, no_input=True)
         shown = (mut["new"] in json.dumps(view)) if mut["new"] else True
         if not shown:
-            c.count("normalised-away(informational)", 1)
+            note(c, "replaced value not in the view of the calculated document (normalised away or recalculated)")
         if verdict == "accepted":
             if U:
                 by = {}
@@ -472,7 +503,7 @@ def judge(c, pub, cases, stats):
                         reported[k] = reported.get(k, 0) + 1
                         in_code_only = [r for r in refs_ if r not in fr]
                         c.report("%s validates although %s `%s` at %s does not resolve in the published definitions%s (replaced `%s` by `%s` at %s)" % (
-                                 x["example"], refs_[0][0], refs_[0][2], refs_[0][1],
+                                 x["example"], {"ext-value": "the value given for extension"}.get(refs_[0][0], refs_[0][0]), refs_[0][2], refs_[0][1],
                                  " (it resolves in the in-code tables: code and published files differ, see C19)" if in_code_only else "",
                                  mut["old"], mut["new"], mut["path"]),
                                  dict(x, unresolved=[list(r) for r in refs_], implementation="accepted", direct=(refs_[0][2] == mut["new"]),
@@ -491,12 +522,11 @@ def judge(c, pub, cases, stats):
                     owner = pub.ext_owner.get(k_)
                     if owner and ((owner[0] == "regime" and pub.regimes.get(view[0], {}).get("country") != owner[1]) or
                                   (owner[0] == "addon" and owner[1] not in view[1])):
-                        c.count("foreign-extension-key(informational)", 1)
+                        note(c, "accepted documents carrying an extension key of another regime or of an addon not in use")
                         break
         else:
             # rejected / calc-error: the model's verdict is informational (Go may refuse for other reasons)
-            agree = "model-also-rejects" if not shp else "model-accepts(go-refuses-for-another-reason)"
-            c.count("rejected:" + agree + "(informational)", 1)
+            note(c, "refused by Go, also by the shipped-rule model" if not shp else "refused by Go, accepted by the model (Go refuses for another reason)")
     return go
 
 
@@ -519,6 +549,23 @@ def run(c):
         c.report("data/currency/*.json and data/schemas/currency/code.json list different currencies: %s" % sorted(pub.currencies ^ pub.schema_currencies)[:10],
                  {"correspondence": "published currency lists"}, no_input=True)
     stats = {}
+
+    # ---- the matcher of the model against regexp.MatchString, on every declared pattern ----
+    pats = sorted({e.get("pattern") for t in (pub, pools.code) for e in t.ext.values() if e.get("pattern")})
+    mlines = []
+    for pt in pats:
+        for v in pattern_probes(c, pt):
+            mlines.append("c18 match %s %s" % (w(pt), w(v)))
+    gm, mm = run_go(mlines), run_oracle(mlines)
+    c.count("pattern-matcher", len(mlines), None)
+    for ln, a, b in zip(mlines, gm, mm):
+        c.count("pattern-matcher", 0, ln)
+        if a != b:
+            pt, v = parse_wire(ln)[2:4]
+            c.report("correspondence broken: pattern %r on value %r: regexp (compiles, matches) = %s, simple_match (supported, matches) = %s" % (pt.decode(), v.decode("utf-8", "replace"), a, b),
+                     {"correspondence": "corr:C18:pattern-matcher", "pattern": pt.decode(), "value": v.decode("utf-8", "replace")}, no_input=True)
+            break
+    c.cov["patterns"] = {"declared": pats, "probes": len(mlines)}
 
     # ---- corpus: recorded witnesses first ----
     cdir = os.path.join(VERIF, "corpus", "C18")
@@ -563,9 +610,9 @@ def run(c):
                 specs.append((ei, {"kind": "tag", "class": cls, "path": "$tags/0", "old": "", "new": new, "detail": "inserted"}))
     c.cov["positions"] = npos
     c.cov["mutated_documents"] = len(specs)
-    for i in range(0, len(specs), 30000):
+    for i in range(0, len(specs), 10000):
         chunk = []
-        for ei, mut in specs[i:i + 30000]:
+        for ei, mut in specs[i:i + 10000]:
             name, j, _ = valid[ei]
             if mut["detail"] == "inserted":
                 d = copy.deepcopy(j)
@@ -584,7 +631,7 @@ def run(c):
                      "($regime, each $addons and $tags member, each combo's category, rate key and country override, each extension "
                      "key and value wherever an extension map occurs, each currency code, each ISO/tax country code incl. addresses, "
                      "tax ids and party regimes) x {the other defined values of that kind: all regimes and addons, a seeded sample "
-                     "of the others (quick) or 25x as many (thorough); undefined values; a defined rate key with an undefined `+` part}; "
+                     "of the others (quick) or all of them (thorough); undefined values; a defined rate key with an undefined `+` part}; "
                      "distinct non-trivial = distinct (example, position, old value, new value); verdict classes per "
                      "kind x class in coverage.verdicts")
     if not proved:
